@@ -146,7 +146,8 @@ def rekey_prepends(ctx):
     ins = []
     for body in lib.family_ext(F, rb.key):
         for c in body.calls():
-            if c.args and any(r[0] == 'param' and r[2] and r[2][-1] == 'secrets' for r in root_descr(body, c.args[0])):
+            # (a closure may capture `msk.secrets` itself: the captured place is then named `_ref__msk__secrets`)
+            if c.args and any(r[0] == 'param' and r[2] and re.search(r'(^|__)secrets$', str(r[2][-1])) for r in root_descr(body, c.args[0])):
                 ins.append(c)
     writes = [c for c in ins if c.name not in ('contains_key', 'get_latest', 'get', 'len', 'iter', 'keys')]
     ctx.check(bool(writes) and all(c.name == 'insert' for c in writes), rb.key, 'adds through RevisionMap::insert',
@@ -234,3 +235,13 @@ def rights_kept(ctx):
     holds (C05.rights-kept)."""
     from . import c05
     c05.rights_kept(ctx)
+
+
+@rule('C04', 'stored-keys-keep-their-order', configs=('default', 'p256'))
+def stored_keys_keep_their_order(ctx):
+    """'once refreshed': a key that was refreshed, stored and loaded again must still be refreshable — its chains come back in the
+    order that was signed, newest first (C13.order restricted to the user key), and decapsulation tries every secret it holds
+    (C01.every-secret-tried)."""
+    from . import c13, c01
+    c13.restricted(ctx, r'(core::UserSecretKey)$', [c13.order, c13.read_loop_keeps_every_element, c13.read_keeps_every_element])
+    c01.every_secret_tried(ctx)
